@@ -174,6 +174,64 @@ def check_instance(res: Result, cls: type, inst: object, rebuild, perturb, snaps
         bad("original-changed", "the original changed while being copied/replaced/pickled")
 
 
+def minimal_change(v: object, finest_time: datetime.timedelta) -> object:
+    """The smallest change of a field value that makes it a different value (None = no such change known)."""
+    import math
+
+    if isinstance(v, bool):
+        return not v
+    if isinstance(v, enum.Enum):
+        members = list(type(v))
+        return members[(members.index(v) + 1) % len(members)] if len(members) > 1 else None
+    if isinstance(v, int):
+        return v + 1
+    if isinstance(v, float):
+        return math.nextafter(v, math.inf) if math.isfinite(v) else 0.0
+    if isinstance(v, str):
+        return v + "x"
+    if isinstance(v, bytes):
+        return v + b"\x00"
+    if isinstance(v, datetime.datetime):
+        try:
+            return v + finest_time
+        except OverflowError:
+            return v - finest_time
+    if isinstance(v, datetime.timedelta):
+        try:
+            return v + finest_time
+        except OverflowError:
+            return v - finest_time
+    if isinstance(v, uuid.UUID):
+        return uuid.UUID(int=(v.int + 1) % (1 << 128))
+    if isinstance(v, tuple):
+        for k, x in enumerate(v):
+            y = minimal_change(x, finest_time) if not dataclasses.is_dataclass(x) else minimal_instance_change(x, finest_time)
+            if y is not None:
+                return v[:k] + (y,) + v[k + 1:]
+        return None
+    if dataclasses.is_dataclass(v) and not isinstance(v, type):
+        return minimal_instance_change(v, finest_time)
+    return None
+
+
+def minimal_instance_change(inst: object, finest_time: datetime.timedelta) -> object:
+    for f in dataclasses.fields(inst):
+        y = minimal_change(getattr(inst, f.name), finest_time)
+        if y is not None:
+            return dataclasses.replace(inst, **{f.name: y})
+    return None
+
+
+def minimal_perturbations(inst: object, finest_time: datetime.timedelta) -> list:
+    """For every field one instance that differs from inst by the smallest possible amount in that field only."""
+    out = []
+    for f in dataclasses.fields(inst):
+        y = minimal_change(getattr(inst, f.name), finest_time)
+        if y is not None and y != getattr(inst, f.name):
+            out.append((f.name + " (minimal change)", dataclasses.replace(inst, **{f.name: y})))
+    return out
+
+
 def _perturbations(spec: describe.StructSpec, tree: dict, inst: object, g: gen.Gen, limit: int):  # noqa: ANN202
     out = []
     fields = list(spec.fields)
@@ -218,7 +276,8 @@ def c15_worker(res: Result, i: int, n: int) -> None:
             inst = describe.tree_to_instance(spec, tree)
             snap = lambda x, s=spec: refcodec.encode_bytes(s, describe.instance_to_tree(s, x))  # noqa: E731
             check_instance(res, cls, inst, lambda t=tree: describe.tree_to_instance(spec, t),
-                           lambda t=tree, x=inst: _perturbations(spec, t, x, g, 4 if res.tier == "quick" else 8), snap, ops, "built")
+                           lambda t=tree, x=inst: _perturbations(spec, t, x, g, 4 if res.tier == "quick" else 8)
+                           + minimal_perturbations(x, datetime.timedelta(milliseconds=1))[: 6 if res.tier == "quick" else 40], snap, ops, "built")
             res.count("instances")
             # what the decoder hands out must be a value object too
             if k % 2 == 0 or k < nhuge:
@@ -263,7 +322,8 @@ def _record_classes(res: Result, ops: dict, distinct: set) -> None:
         return dict(key=r.choice((None, b"", b"k", r.randbytes(5))), value=r.choice((None, b"", r.randbytes(9))))
 
     def record(r):  # noqa: ANN001, ANN202
-        return dict(attributes=r.randint(-128, 127), timestamp=E + datetime.timedelta(milliseconds=r.randint(0, 2**41)), offset=r.randint(0, 2**40),
+        return dict(attributes=r.randint(-128, 127), timestamp=E + datetime.timedelta(milliseconds=r.randint(0, 2**41), microseconds=r.choice((0, 0, 1, 456, 999))),
+                    offset=r.randint(0, 2**40),
                     key=r.choice((None, b"", r.randbytes(3))), value=r.choice((None, r.randbytes(11))),
                     headers=tuple(RecordHeader(**header(r)) for _ in range(r.randint(0, 3))))
 
@@ -291,7 +351,7 @@ def _record_classes(res: Result, ops: dict, distinct: set) -> None:
                         if alt != kw[name]:
                             out.append((name, cls(**dict(kw, **{name: alt}))))
                             break
-                return out
+                return out + minimal_perturbations(cls(**kw), datetime.timedelta(microseconds=1))
 
             check_instance(res, cls, inst, lambda kw=kw, cls=cls: cls(**kw), perturb, lambda x: repr(x), ops, "record class")
             res.count("record_class_instances")
